@@ -71,6 +71,26 @@ func init() {
 		Units:      []unit{ircUnit("lines", "^TestVerifC06$", 6000, 300000)},
 	})
 	props = append(props, prop{
+		ID: "C01", Title: "replica determinism", Level: "exploration",
+		LevelText:  "Differential execution: every generated history is applied entry by entry to three fresh instances with the same network name and different creation times; replies (ids, bytes with only numeric 003 masked, recipient sets) are compared after every entry and the full state (reflection walk over every field) at the end. Go randomises map iteration per loop, so an order dependence over >=2 elements shows with probability >=1/2 per pair of runs.",
+		LevelNote:  "Unit a mirrors FSM.applyRobustMessage in package ircserver; unit b (package main) runs the real applyRobustMessage with a real output stream per instance and cross-checks the mirror.",
+		Technique:  "property-based differential testing (rapid): same generated history on several instances, compare outputs and state",
+		DesignRef:  "4/C01",
+		Rule:       "case = generated history of 5-80 entries (clients, operators, services link with pseudo-clients, config changes, message-of-death entries, generated timestamps) run on 3 instances; non-trivial = some entry produced >=2 replies AND some iterated map held >=2 elements (channel with >=2 members, >=2 pseudo-clients, >=2 bans, session in >=2 channels); distinct = hash of the entry list",
+		Assumptions: []string{"instances are created with the same network name; numeric 003 is the only tolerated difference"},
+		Units:      []unit{ircUnit("ircserver", "^TestVerifC01$", 4000, 150000)},
+	})
+	props = append(props, prop{
+		ID: "C03", Title: "state serialization is complete", Level: "exploration",
+		LevelText:  "Round trip + differential continuation: after EVERY entry of every generated history the state is marshalled into a fresh instance and compared field by field (reflection walk that covers fields added later, rebuilt indexes included) and through the API-visible configuration probes; from one generated cut point on, the never-serialized and the restored instance both execute the rest of the history and must answer identically.",
+		LevelNote:  "nil and empty maps/slices are the same state in the walk (behaviour that distinguishes them is compared through probes); the server creation time (numeric 003) is exempt.",
+		Technique:  "property-based testing (rapid): round-trip oracle at every cut point + differential continuation",
+		DesignRef:  "4/C03",
+		Rule:       "case = generated history of 8-80 entries with a generated cut point; round trip compared after every entry; non-trivial = the cut happened, the state at the cut held at least one of {nick-less session, nick but not logged in, operator, services link with >=2 pseudo-clients, invited session, keyed/banned/+x/+i channel, topic, svshold, away, solved captcha, non-default config} AND the continuation produced replies; distinct = hash of the entry list",
+		Assumptions: []string{"continuations are drawn from the same generator as histories (biased to commands that read state)"},
+		Units:      []unit{ircUnit("roundtrip", "^TestVerifC03$", 5000, 200000)},
+	})
+	props = append(props, prop{
 		ID: "C14", Title: "IRC state stays consistent", Level: "exploration",
 		LevelText:  "Generated mixed histories (nick changes incl. case-only and []\\ / {}| variants, joins/parts/kicks/quits/kills/glines, deletions and expiries, services SVS* commands, small session/channel limits, Marshal/Unmarshal round trips as history steps) with an in-package invariant walk over the three indexes after every entry.",
 		LevelNote:  "The case mapping and the validity grammar are re-stated in the harness independently of the code; SVSNICK only onto free nicknames and only for regular client sessions (the property's quantifier).",
